@@ -124,6 +124,13 @@ def gen_explore_cases(tier, g, rnd):
     libs = lib_texts(lib.REPO, rnd, 3000 if thorough else 250)
     cases += [('block', s, 'stdlib') for s in libs]
     cases += [(e, t, 'template') for e, t in G.DDL_TEMPLATES]
+    # union / except / intersect (quoted) in every identifier position of templates, statement forms and upstream texts
+    allkw = set(g['kwtext'].values())
+    pr_seeds = list(G.DDL_TEMPLATES) + [(e, h.replace('@2', 'y').replace('@', 'x')) for e, h in G.STMT_HOLES] + \
+        [('block', s_ + ';') for s_ in G.STMT_FORMS]
+    cases += [(e, t, 'partial-reserved') for e, t in G.partial_reserved_texts(rnd, pr_seeds, allkw, every=True)]
+    up = [(e, t) for e, t, _ in pos if len(t) < 400]
+    cases += [(e, t, 'partial-reserved') for e, t in G.partial_reserved_texts(rnd, up, allkw, per_text=6 if thorough else 2)]
     # string literals: every ordered pair of character classes in every quoting style
     cases += [(e, t, 'string-classes') for e, t in G.string_class_texts(rnd, 3 if thorough else 2)]
     # statements in every statement position (hole x statement form, exhaustive) + two-level nesting
@@ -438,6 +445,37 @@ FINDINGS = [
             feat='link-unknown-pointer-computed',
             special=lambda c, r, f: (f['kind'] == 'same-ast' and bool(re.search(r'CreateLink\.commands\[\]\|CreateConcreteUnknownPointer>SetField$', f.get('sig') or '')))
             or (f['kind'] == 'reparse' and bool(re.search(r"Unexpected ':='|Missing ':'", f.get('sig') or '')))),
+    Finding('C01-group-by-partial-reserved-bare', 'reparse|same-ast', f'{CG}::visit_GroupingSimple / visit_Path (BY clause of GROUP: path steps are printed with allow_partial_reserved)',
+            'GROUP ... BY with a grouping element `.name` / `@name` (also inside a tuple, a set, ROLLUP or CUBE) whose name is `union`, `except` or `intersect` (quoted in the input)',
+            'printed bare (`by @union`); the BY clause takes an Identifier there, not a PathStepName, so the keyword is read: residual of the repaired '
+            'C01-partial-reserved-bare (ordinary path and shape steps may be bare, grouping elements may not)',
+            printed=r"\bby\b[^;]*?[.@]\s*(union|except|intersect)\b",
+            special=lambda c, r, f: _sp_partial(c, r, f) and 'GroupQuery' in (r.get('nodes') or ()) or _sp_partial(c, r, f) and 'InternalGroupQuery' in (r.get('nodes') or ())),
+    Finding('C01-function-edgeql-code-text', 'same-ast', f'{CG}::_function_after_name (EdgeQL branch: `USING (<code text>)`)',
+            'CREATE / ALTER FUNCTION ... USING EdgeQL $$<text>$$ (body given as a dollar-quoted / string literal with the language spelled out)',
+            'printed as `USING (<text>)`, which the parser reads as the expression form: FunctionCode.code (text) becomes CreateFunction.nativecode (an AST); '
+            'same function, different tree (and a text that is not an expression would not re-parse)',
+            feat='function-edgeql-code-text', sig=r'FunctionCode\.code\|str>None$|\.nativecode\|None>'),
+    Finding('C01-function-from-expr-plus-body', 'same-ast|reparse', f'{CG}::_function_after_name (from_expr branch)',
+            'CREATE / ALTER FUNCTION whose body holds USING <lang> EXPRESSION together with USING (<expr>)',
+            'the from_expr branch is taken and the expression is dropped (`using sql expression;`, CreateFunction.nativecode lost); when USING (<expr>) comes last the '
+            'language is EdgeQL and the print `using edgeql expression` is rejected by the grammar',
+            feat='function-from-expr-plus-body',
+            special=lambda c, r, f: (f['kind'] == 'same-ast' and bool(re.search(r'\.nativecode\||FunctionCode\.code\|', f.get('sig') or '')))
+            or (f['kind'] == 'reparse' and 'language is not supported in USING' in (f.get('sig') or '') + (f.get('detail') or ''))),
+    Finding('C01-collection-type-partial-reserved-bare', 'reparse|same-ast', f'{CG}::visit_TypeName (main type of a parametrised type printed with allow_partial_reserved)',
+            'a parametrised type whose main type name is `union`, `except` or `intersect` (quoted in the input): `<`union`<int64>>x`, `extending `union`<a, b>`',
+            'printed bare (`union<int64>`); a collection type name is a NodeName, not a type-name position where the keyword may be bare',
+            printed=r"(?<![`\w.:@])(union|except|intersect)\s*<", special=_sp_partial),
+    Finding('C01-free-shape-partial-reserved-bare', 'reparse|same-ast', f'{CG}::visit_ShapeElement / visit_Path (element of a free shape)',
+            'a free shape `{ name := ... }` (no subject) with an element named `union`, `except` or `intersect` (quoted in the input)',
+            'printed bare (`select { union := 1 }`): free-shape elements take an Identifier, unlike the steps of an ordinary shape',
+            feat='free-shape-partial-reserved', special=_sp_partial),
+    Finding('C01-role-base-partial-reserved-bare', 'reparse|same-ast', f'{CG}::visit_CreateRole / visit_AlterAddInherit / visit_AlterDropInherit (role bases printed like type names)',
+            'CREATE ROLE ... EXTENDING / ALTER ROLE { [DROP] EXTENDING ... } with a base role named `union`, `except` or `intersect` (quoted in the input)',
+            'printed bare (`create role r extending union`): role bases are plain names, not type names',
+            printed=r"\bextending\b[^;{}]*\b(union|except|intersect)\b",
+            special=lambda c, r, f: _sp_partial(c, r, f) and bool({'CreateRole', 'AlterRole'} & set(r.get('nodes') or ()))),
     Finding('C01-partial-reserved-bare', 'reparse|same-ast', 'edb/edgeql/quote.py::needs_quoting (only RESERVED_KEYWORD is consulted)',
             'an identifier `union`, `except` or `intersect` (partial reserved keywords) that the input had to quote',
             'printed bare; in expression position the parser reads the keyword',
@@ -547,6 +585,12 @@ REPLAYS = {
     'C01-subtype-label': ('fragment', '<tuple<a: T | U>>x'),
     'C01-alter-empty-body': ('block', 'ALTER ROLE r { }'),
     'C01-partial-reserved-bare': ('block', 'SELECT `union`.age'),
+    'C01-collection-type-partial-reserved-bare': ('block', 'select <`union`<int64>>$1;'),
+    'C01-free-shape-partial-reserved-bare': ('block', "select { `union` := 'foo' };"),
+    'C01-role-base-partial-reserved-bare': ('block', 'create role r extending `union`;'),
+    'C01-function-edgeql-code-text': ('block', 'create function f() -> int64 using edgeql $$ select 1 $$;'),
+    'C01-function-from-expr-plus-body': ('block', 'create function f() -> int64 { using sql expression; using (1); };'),
+    'C01-group-by-partial-reserved-bare': ('block', 'group x by @`union`;'),
     'C01-sdl-link-unknown-pointer-computed-short': ('sdl', 'module default { abstract link l { p { using (1) } } }'),
     'C01-typeop-left-typeof-introspect': ('fragment', 'x is ((typeof introspect T) | U)'),
     'C01-sdl-overloaded-computed': ('sdl', 'module default { type T { overloaded p { using (1) } } }'),
